@@ -257,7 +257,13 @@ Definition do_call (c : call) : M unit :=
           dom fok <- lift (in_strset fmt GenText.meta_formats);
           if negb fok then lift (Err ELibChoice) else
           dom dumped <- lift (json_dump j);
-          new_content_section (B "meta") (CText (ascii_text dumped)) WNone encoding WNone false true [(B "format", fmt)]
+          (* `if not (encoding or self._cur_encoding): content = content.encode('ascii')`: with no encoding in force
+             the (pure ASCII) JSON text is handed on as bytes *)
+          dom s <- get_state;
+          dom has_enc <- lift (if wv_truthy encoding then Ok true
+                               else do ce <- cur_encoding s; Ok (wv_truthy ce));
+          let content := if has_enc then CText (ascii_text dumped) else CBytes dumped in
+          new_content_section (B "meta") content WNone encoding WNone false true [(B "format", fmt)]
       | _ => lift (Err ELibContent)
       end
   | WriteDiff content diff_type encoding line_endings =>
